@@ -12,10 +12,12 @@
 package engine
 
 import (
+	"context"
 	"fmt"
 	"math/rand"
 	"runtime"
 	"strings"
+	"sync"
 	"testing"
 	"testing/synctest"
 	"time"
@@ -1181,6 +1183,40 @@ func (s *Sim) finish() {
 	}
 }
 
+// UserCtx is a user-defined context.Context, as applications may pass to a
+// directive: its own Done channel and error, values (and nothing else) from
+// its parent. The parent is a live, cancellable standard context, so code that
+// reaches through Value for the nearest standard cancel context finds one
+// that is not cancelled.
+type UserCtx struct {
+	Parent context.Context
+	mu     sync.Mutex
+	done   chan struct{}
+	err    error
+}
+
+func NewUserCtx(parent context.Context) *UserCtx {
+	return &UserCtx{Parent: parent, done: make(chan struct{})}
+}
+func (c *UserCtx) Deadline() (time.Time, bool) { return time.Time{}, false }
+func (c *UserCtx) Done() <-chan struct{}       { return c.done }
+func (c *UserCtx) Value(k any) any             { return c.Parent.Value(k) }
+func (c *UserCtx) Err() error {
+	c.mu.Lock()
+	defer c.mu.Unlock()
+	return c.err
+}
+
+// Cancel ends the context with context.Canceled.
+func (c *UserCtx) Cancel() {
+	c.mu.Lock()
+	if c.err == nil {
+		c.err = context.Canceled
+		close(c.done)
+	}
+	c.mu.Unlock()
+}
+
 // ---- choices and policies ----
 
 // Chooser is the single source of scheduling decisions of a run.
@@ -1253,7 +1289,7 @@ type Policy struct {
 	nextLow int
 }
 
-var PolicyNames = []string{"uniform", "pct", "starve-loop", "starve-result", "caller-first", "caller-last", "slow-worker", "tick-greedy", "worker-first"}
+var PolicyNames = []string{"uniform", "pct", "starve-loop", "starve-result", "caller-first", "caller-last", "slow-worker", "tick-greedy", "worker-first", "submit-all-first"}
 
 // NewPolicy draws the parameters of the named policy from rng.
 func NewPolicy(name string, rng *rand.Rand, estSteps int) *Policy {
@@ -1283,6 +1319,11 @@ func NewPolicy(name string, rng *rand.Rand, estSteps int) *Policy {
 		p.KindW = [5]int{15, 15, 15, 15, 15}
 	case "tick-greedy":
 		p.ArmW = [4]int{1, 1, 1, 30}
+	case "submit-all-first":
+		// callers and the loop's enqueue arm are strongly preferred, workers starved:
+		// (nearly) everything is submitted before (nearly) anything has run
+		p.KindW = [5]int{200, 1, 200, 200, 200}
+		p.ArmW = [4]int{1, 40, 1, 1}
 	case "worker-first":
 		p.KindW = [5]int{1, 30, 1, 1, 1}
 		p.ArmW = [4]int{20, 5, 1, 1}
